@@ -1,3 +1,76 @@
-// unit data_hash: harnesses for sdk/src/assertions/data_hash.rs (included by the cfg(kani) hook at the end of that file)
+// unit data_hash: sdk/src/assertions/data_hash.rs (included by the cfg(kani) hook at the end of that file)
+// C14: differential check of the CBOR size model that the Verus unit `pad` ASSUMES for to_assertion():
+//   |data| = base + hdr(|pad|) + |pad| + (pad2 ? 5 + hdr(|pad2|) + |pad2| : 0),  hdr = 1/2/3/5 at 24, 256, 65536
+// and the property's own quantifier for pad_to_size around the header boundaries.
 #[allow(unused_imports)]
 use super::*;
+
+#[cfg(test)]
+fn hdr(n: usize) -> usize {
+    if n < 24 { 1 } else if n < 256 { 2 } else if n < 65536 { 3 } else { 5 }
+}
+
+#[test]
+fn c14_cbor_size_model_matches_serializer() {
+    let mut evals = 0usize;
+    let mut viol = 0usize;
+    let size = |dh: &DataHash| dh.to_assertion().map(|a| a.data().len()).unwrap_or(usize::MAX);
+    for exclusions in [0usize, 1, 3] {
+        let mut dh = DataHash::new("jumbf manifest", "sha256");
+        for i in 0..exclusions {
+            dh.add_exclusion(HashRange::new(10 + i as u64 * 100_000, 70_000));
+        }
+        dh.set_hash(vec![7u8; 32]);
+        let base = size(&dh) - hdr(0);
+        for pad in [0usize, 1, 22, 23, 24, 25, 254, 255, 256, 257, 65534, 65535, 65536, 65537, 70000] {
+            for pad2 in [None, Some(0usize), Some(1), Some(23), Some(24), Some(255), Some(256), Some(65535), Some(65536)] {
+                evals += 1;
+                dh.pad = vec![0u8; pad];
+                dh.pad2 = pad2.map(|n| serde_bytes::ByteBuf::from(vec![0u8; n]));
+                let want = base + hdr(pad) + pad + pad2.map_or(0, |n| 5 + hdr(n) + n);
+                let got = size(&dh);
+                if got != want {
+                    viol += 1;
+                    if viol <= 3 {
+                        println!("VERIF-B-VIOLATION key=cbor_size_model.data_hash input=exclusions={exclusions} pad={pad} pad2={pad2:?}: serializer {got}, model {want}");
+                    }
+                }
+            }
+        }
+    }
+    println!("VERIF-B unit=data_hash test=c14_cbor_size_model_matches_serializer evaluations={evals} nontrivial={evals} exhaustive=true domain=DataHash with 0/1/3 exclusions x pad lengths around 24, 256, 65536 x pad2 None / lengths around the same boundaries; violations={viol}");
+}
+
+// pad_to_size on the real serializer: every target up to +300 and the neighbourhood of the 65536 boundary
+#[test]
+fn c14_pad_to_size_around_header_boundaries() {
+    let thorough = std::env::var("VERIF_B_TIER").map(|t| t == "thorough").unwrap_or(false);
+    let mut evals = 0usize;
+    let mut viol = 0usize;
+    let mut targets: Vec<usize> = (0..=300).collect();
+    targets.extend(if thorough { (65530..=65545).collect::<Vec<_>>() } else { vec![65537, 65538, 65539] });
+    for initial_pad in [0usize, 10] {
+        for extra in &targets {
+            let mut dh = DataHash::new("jumbf manifest", "sha256");
+            dh.set_hash(vec![7u8; 32]);
+            dh.pad = vec![0u8; initial_pad];
+            let unpadded = dh.to_assertion().map(|a| a.data().len()).unwrap_or(0);
+            evals += 1;
+            let r = std::panic::catch_unwind(std::panic::AssertUnwindSafe(|| dh.pad_to_size(unpadded + extra)));
+            let got = dh.to_assertion().map(|a| a.data().len()).unwrap_or(0);
+            let key = match r {
+                Err(_) => Some("pad_to_size.panic"),
+                Ok(Err(_)) => Some("pad_to_size.size_error_for_ample_target"),
+                Ok(Ok(())) if got != unpadded + extra => Some("pad_to_size.wrong_size"),
+                _ => None,
+            };
+            if let Some(k) = key {
+                viol += 1;
+                if viol <= 3 {
+                    println!("VERIF-B-VIOLATION key={k} input=initial pad {initial_pad}, target = unpadded ({unpadded}) + {extra}");
+                }
+            }
+        }
+    }
+    println!("VERIF-B unit=data_hash test=c14_pad_to_size_around_header_boundaries evaluations={evals} nontrivial={evals} exhaustive=true domain=initial pad {{0,10}} x targets unpadded + 0..=300 and + {}; violations={viol}", if thorough { "65530..=65545" } else { "{65537,65538,65539}" });
+}
